@@ -638,6 +638,7 @@ api.BY_NAME["AdapterSpecification._parse_restrictions"] = parse_restrictions
 
 @contract("parser.py", "AdapterSpecification.parse", props=["C18"])
 def parse_real(c):
+    c.runtime = {"module": "c18", "name": "specification", "replay_count": 6000}
     """What the constructors rely on (assumed at their call sites through AdapterSpecification.parse@abstract) and the documented
     invalid combinations: a 5' adapter takes no 3' restriction and vice versa, -b takes none, min_overlap is not for anchored
     adapters (and is clipped to the sequence length), rightmost is for regular 5' adapters only."""
